@@ -588,6 +588,7 @@ struct Gen {
     rng: Xoroshiro128StarStar,
     ties: bool,
     offgrid_modify: bool,
+    reload_heavy: bool,
 }
 
 impl Gen {
@@ -637,7 +638,11 @@ impl Gen {
         // one history in four lives next to price 0 (0 is a multiple of every tick size: a legal price)
         // ... one near the top of the price range (limit prices stay strictly below 2^32 - 1), one in the middle of it
         let base = match self.rng.gen_range(0..12) { 0 | 1 | 2 => 0u32, 3 => (u32::MAX - 1) / tick - 5, 4 => (1u32 << 31) / tick, _ => 20u32 };
-        let mut big_left = 2u32;      // at most two very large volumes per history: per-side resting volume and traded volume stay below 2^32
+        let mut big_left = 2u32;
+        // one history in three is confined to two price levels: queues at a level get long, so queue ORDER (not only level totals) decides what happens next
+        let span = if self.rng.gen_range(0..3) == 0 { 2u32 } else { 6u32 };
+        // snapshot-heavy histories (C07 searches): reload every few operations
+        let reload_from = if self.reload_heavy { 90 } else { 97 };      // at most two very large volumes per history: per-side resting volume and traded volume stay below 2^32
         let mut last_q: Option<(usize, u32)> = None;      // (id, price) of the order queued by the previous operation
         let mut created = 0usize;                          // exact number of orders that exist (what fix_ids computes), so that `last_q` names the right order
         for _ in 0..len {
@@ -657,7 +662,7 @@ impl Gen {
             }
             let r = self.rng.gen_range(0..100);
             let side = if self.rng.gen_bool(0.5) { MSide::Bid } else { MSide::Ask };
-            let price = (base + self.rng.gen_range(0..6)) * tick;
+            let price = (base + self.rng.gen_range(0..span)) * tick;
             let mut vol = self.rng.gen_range(1..8);
             if big_left > 0 && self.rng.gen_range(0..60) == 0 {
                 big_left -= 1;
@@ -693,7 +698,7 @@ impl Gen {
                 Op::Disable
             } else if r < 95 {
                 Op::Enable
-            } else if r < 97 {
+            } else if r < reload_from {
                 Op::ResetTradeVol
             } else if r < 99 {
                 Op::Reload
@@ -786,7 +791,7 @@ fn search(prop: &str, depth: usize, seed: u64, nrandom: usize, len: usize, ties:
     let prop = if toggling { "C13T" } else { prop };
     // 1. exhaustive DFS over the small alphabet
     for tick in [1u32, 2, 4, 3] {
-        let gen = Gen { rng: Xoroshiro128StarStar::seed_from_u64(seed), ties, offgrid_modify: offgrid };
+        let gen = Gen { rng: Xoroshiro128StarStar::seed_from_u64(seed), ties, offgrid_modify: offgrid, reload_heavy: prop == "C07" };
         let mut stack: Vec<Vec<Op>> = vec![vec![]];
         while let Some(prefix) = stack.pop() {
             if t0.elapsed().as_secs() > budget_s / 2 {
@@ -850,7 +855,7 @@ fn search(prop: &str, depth: usize, seed: u64, nrandom: usize, len: usize, ties:
         }
     }
     // 2. seeded random long histories over wider alphabets
-    let mut gen = Gen { rng: Xoroshiro128StarStar::seed_from_u64(seed ^ 0x9e37), ties, offgrid_modify: offgrid };
+    let mut gen = Gen { rng: Xoroshiro128StarStar::seed_from_u64(seed ^ 0x9e37), ties, offgrid_modify: offgrid, reload_heavy: prop == "C07" };
     for k in 0..nrandom {
         if t0.elapsed().as_secs() > budget_s {
             break;
@@ -877,7 +882,7 @@ fn search(prop: &str, depth: usize, seed: u64, nrandom: usize, len: usize, ties:
 
 fn truncate_check(seed: u64) -> (usize, Vec<String>) {
     // bounded stand-in (C07): snapshots of generated states, every byte prefix must be rejected with Err (no panic, no Ok)
-    let mut gen = Gen { rng: Xoroshiro128StarStar::seed_from_u64(seed), ties: false, offgrid_modify: false };
+    let mut gen = Gen { rng: Xoroshiro128StarStar::seed_from_u64(seed), ties: false, offgrid_modify: false, reload_heavy: false };
     let mut checked = 0usize;
     let mut bad = vec![];
     for k in 0..4 {
